@@ -264,8 +264,11 @@ def rule_chain(prog, em):
         found = True
         key = 'CHAIN|%s' % b.name
         problems = []
+        # in the dispatching body itself only the region handling the Stmt variant counts
+        entry = r_order._arm_entry(em, b, 'Stmt')
+        region = b.reachable_from(entry) if entry else set(b.live_blocks)
         for bb, i, pl, rv in b.assigns():
-            if pl['l'] == 0 and not pl['p'] and rv['k'] == 'agg' and rv.get('variant') == 'Ok':
+            if bb in region and pl['l'] == 0 and not pl['p'] and rv['k'] == 'agg' and rv.get('variant') == 'Ok':
                 origins = trace_operand(b, rv['ops'][0], through_calls=set())
                 kinds = set()
                 for o in origins:
@@ -298,6 +301,9 @@ def rule_chain(prog, em):
                             problems.append('the statement value is not stored into the carried result')
                         elif nxt.bb in b.reachable_from(cont, avoid=dblocks) and cont not in dblocks:
                             problems.append('an iteration can finish without storing its statement value into the carried result (conditional update)')
+        n_ok = len([1 for bb, i, pl, rv in b.assigns() if bb in region and pl['l'] == 0 and not pl['p'] and rv['k'] == 'agg' and rv.get('variant') == 'Ok'])
+        if n_ok == 0:
+            problems.append('the program value is not built here as Ok(<carried result>) (it is the result of a call / combinator this rule cannot read)')
         if problems:
             obs.append(bad('CHAIN', key, '; '.join(problems), b.where(), body=b.name))
         else:
